@@ -130,7 +130,7 @@ def check(run):
     sweep = [(f"colat-{d}", (math.cos(math.radians(d) / 2), 0.0, math.sin(math.radians(d) / 2), 0.0)) for d in range(step, 180, step)]
     gap_Y(run, [(big, 2, [0, -2] if deep else [-2])], sweep, 3 if deep else 1, big_m=True)
     gap_Y(run, [(big, 2, [-2, 0] if quick else [-2, 0, 2])], (pole_focus[:5] + gen[:2]) if quick else (pole_focus[:8] + gen[:3]), 1)
-    run.assumptions += ["rounding bound and finiteness at ell>1000 are checked by oracle sampling (no theorem); exact zeros below |s| are proved (Routes.sYlm_low_exact_zero)",
+    run.assumptions += ["exact arithmetic: sYlm of the model = (-1)^s sqrt((2l+1)/4pi) docD^l_{m,-s} for every ell, spin and unit quaternion (DAll.sYlm_all); exact zeros below |s| for every arithmetic (Routes.sYlm_low_exact_zero); the rounding bound and finiteness at ell>1000 are checked by oracle sampling (no theorem)",
                         "addition theorem is a consequence of unitarity of D, which is not proved (DESIGN.md §5)"]
 
 
